@@ -120,7 +120,7 @@ PROPS = {
                 "the bit-flip, byte-substitution, field and truncation sweeps of the listed base files only.",
         "manifest": {
             "text": "Fault enumeration: the complete single-bit, single-byte-substitution, per-field and truncation fault "
-                    "spaces of 6 (quick) / up to 240 (thorough, cut by the wall budget) small valid files are swept against the real readers; region edits "
+                    "spaces of 14 (quick) / up to 240 (thorough, cut by the wall budget) small valid files are swept against the real readers; region edits "
                     "and non-format strings are sampled.",
             "note": "Base files come from the crate's own writers (checked by C02/C03); outcomes of panicking or hanging "
                     "readers are not wrong-data outcomes and are counted as not judged here (C06/C09 judge them).",
